@@ -1,6 +1,6 @@
 ------------------------------ MODULE Conf_Idea ------------------------------
 EXTENDS Idea, Json, IOUtils
-VARIABLES l, inst
+VARIABLES tpos, inst
 Rec == ndJsonDeserialize(IOEnv.TRACE)
 OSched(t, k, x) == IdeaSched(t, k, x)
 OEnc(ks, b) == IdeaEnc(ks, b)
